@@ -1,52 +1,98 @@
 use vstd::prelude::*;
 use vstd::std_specs::ops::*;
+use vstd::float::*;
+use vstd::std_specs::iter::IteratorSpec;
 verus! {
+
+pub uninterp spec fn fmul(a: f64, b: f64) -> f64;
+pub uninterp spec fn fadd(a: f64, b: f64) -> f64;
+pub uninterp spec fn fneg(a: f64) -> f64;
+pub broadcast axiom fn ax_mul_vv_r(a: f64, b: f64) ensures #[trigger] a.mul_req(b);
+pub broadcast axiom fn ax_mul_vv(a: f64, b: f64) ensures #[trigger] a.mul_spec(b) == fmul(a, b);
+pub broadcast axiom fn ax_mul_vr_r(a: f64, b: &f64) ensures #[trigger] a.mul_req(b);
+pub broadcast axiom fn ax_mul_vr(a: f64, b: &f64) ensures #[trigger] a.mul_spec(b) == fmul(a, *b);
+pub broadcast axiom fn ax_mul_rv_r(a: &f64, b: f64) ensures #[trigger] a.mul_req(b);
+pub broadcast axiom fn ax_mul_rv(a: &f64, b: f64) ensures #[trigger] a.mul_spec(b) == fmul(*a, b);
+pub broadcast axiom fn ax_add_vv_r(a: f64, b: f64) ensures #[trigger] a.add_req(b);
+pub broadcast axiom fn ax_add_vv(a: f64, b: f64) ensures #[trigger] a.add_spec(b) == fadd(a, b);
+pub broadcast group fl { ax_mul_vv, ax_mul_vr, ax_mul_rv, ax_add_vv, ax_mul_vv_r, ax_mul_vr_r, ax_mul_rv_r, ax_add_vv_r }
+pub axiom fn ax_obeys()
+    ensures <f64 as AddSpec>::obeys_add_spec(), <f64 as MulSpec>::obeys_mul_spec(), <f64 as MulSpec<&f64>>::obeys_mul_spec(), <&f64 as MulSpec<f64>>::obeys_mul_spec();
 
 #[derive(Copy, Clone)]
 pub enum PlayerNum { One, Two }
 impl PlayerNum {
     #[verifier::external_body]
-    fn ind_mut<'a, T>(&self, arr: &'a mut [T; 2]) -> &'a mut T { unimplemented!() }
+    fn ind_mut<'a, T>(&self, arr: &'a mut [T; 2]) -> (r: &'a mut T)
+        ensures
+            *r == (match *self { PlayerNum::One => old(arr)[0], PlayerNum::Two => old(arr)[1] }),
+            match *self {
+                PlayerNum::One => final(arr)[0] == *final(r) && final(arr)[1] == old(arr)[1],
+                PlayerNum::Two => final(arr)[1] == *final(r) && final(arr)[0] == old(arr)[0],
+            },
+    { unimplemented!() }
 }
 pub enum Node { Terminal(f64), Chance(Chance), Player(Player) }
 pub struct Chance { pub outcomes: Box<[Node]>, pub infoset: usize }
 pub struct Player { pub num: PlayerNum, pub infoset: usize, pub actions: Box<[Node]> }
 
 #[verifier::external_body]
-fn __neg(x: f64) -> (r: f64) ensures r == neg_model(x) { -x }
-pub uninterp spec fn neg_model(x: f64) -> f64;
+fn __neg(x: f64) -> (r: f64) ensures r == fneg(x) { -x }
 
-trait Add {
-    fn add(self, other: f64);
+trait Add: Sized {
+    #[verifier::prophetic]
+    spec fn added(self, other: f64) -> bool;
+    fn add(self, other: f64)
+        ensures self.added(other);
 }
 
-impl Add for &mut f64 {
-    fn add(self, other: f64) {
-        *self = *self + (other);
-    }
-}
-
-fn recurse_player(
-    player: &Player,
-    p_chance: f64,
-    p_player: [f64; 2],
-    strat: &[f64],
-    cum_regret: impl IntoIterator<Item = impl Add>,
-    rec: impl Fn(&Node, [f64; 2]) -> f64,
-) -> (f64, f64) {
+fn mult_of(player: &Player, p_chance: f64, p_player: [f64; 2]) -> (mult: f64)
+    ensures mult == (match player.num { PlayerNum::One => fmul(p_chance, p_player[1]), PlayerNum::Two => fmul(fneg(p_player[0]), p_chance) }),
+{
+    broadcast use fl;
+    proof { ax_obeys(); }
     let mult = match (player.num, p_player) {
         (PlayerNum::One, __a) => { let two = __a[1]; p_chance * two },
         (PlayerNum::Two, __a) => { let one = __a[0]; __neg(one) * p_chance },
     };
+    mult
+}
+
+
+pub open spec fn pnext_of(player: Player, p_player: [f64; 2], prob: f64) -> [f64; 2] {
+    match player.num {
+        PlayerNum::One => [fmul(p_player[0], prob), p_player[1]],
+        PlayerNum::Two => [p_player[0], fmul(p_player[1], prob)],
+    }
+}
+
+fn recurse_player<A: Add, C: IntoIterator<Item = A>, F: Fn(&Node, [f64; 2]) -> f64>(
+    player: &Player,
+    p_chance: f64,
+    p_player: [f64; 2],
+    strat: &[f64],
+    cum_regret: C,
+    rec: F,
+) -> (out: (f64, f64))
+    requires
+        forall|n: &Node, p: [f64; 2]| rec.requires((n, p)),
+{
+    broadcast use fl;
+    proof { ax_obeys(); }
+    let mult = mult_of(player, p_chance, p_player);
 
     let mut expected_one = 0.0;
     let mut expected = 0.0;
-    for ((next, prob), cum_reg) in player
+    for ((next, prob), cum_reg) in it: player
         .actions
         .iter()
         .zip(strat.iter())
         .zip(cum_regret.into_iter())
+        invariant
+            forall|n: &Node, p: [f64; 2]| rec.requires((n, p)),
     {
+        broadcast use fl;
+        proof { ax_obeys(); }
         let mut p_next = p_player;
         *player.num.ind_mut(&mut p_next) = *player.num.ind_mut(&mut p_next) * (prob);
         let util_one = rec(next, p_next);
@@ -57,6 +103,5 @@ fn recurse_player(
     }
     (expected_one, expected)
 }
-
 } // verus!
 fn main() {}
